@@ -820,6 +820,37 @@ fn check_image(cx: &mut Ctx, rec: &mut Recorder, sim: &Sim, ci: usize, k: usize,
     verdict
 }
 
+/// Short file: the durable image (everything pending lost) cut to `size` bytes is opened with the
+/// real code; a read beyond EOF must be an invalid root, never a panic.  The answer is compared
+/// with the model's `Writer.openSz`.
+fn check_truncated(cx: &mut Ctx, rec: &mut Recorder, sim: &Sim, size: u64, label: &str) -> String {
+    cx.images += 1;
+    let (mut img, _) = sim.crash(&[], false);
+    img.truncate(size as usize);
+    let dir = fresh_dir(&cx.root, "img");
+    let path = dir.join(cx.case.graph.to_string());
+    {
+        let f = fs::File::create(&path).expect("image file");
+        f.write_all_at(&img, 0).expect("write image");
+        f.set_len(size).expect("set_len");
+    }
+    let mut fm = FileManager::new(&dir).expect("FileManager on image dir");
+    match vh::catch(std::panic::AssertUnwindSafe(|| fm.open(cx.case.graph))) {
+        Ok(Ok(Some(w))) => {
+            rec.count("short_file:opened");
+            show_root(&w.verif_root())
+        }
+        Ok(_) => {
+            rec.count("short_file:err");
+            "err".to_string()
+        }
+        Err(p) => {
+            rec.panics.push(format!("{label}: panic in FileManager::open on a file truncated to {size} bytes: {p}"));
+            "err".to_string()
+        }
+    }
+}
+
 /// fault choices for a crash state
 fn gen_chis(rng: &mut Rng, sim: &Sim, budget: usize) -> Vec<Vec<String>> {
     let m = sim.pending.len();
@@ -985,6 +1016,13 @@ fn explore(rec: &mut Recorder, rng: &mut Rng, case: &Case, root: &Path, per_poin
             rec.count("crash_points");
             if near_root {
                 rec.count("crash_points:root_write_pending");
+            }
+            if after_commit && (label == "case0" || label == "case1") {
+                // short files: cut inside / before / between the root slots and inside the data
+                for size in [0u64, 3, 4097, 4110, 4096 + 56, 8192 + 3, 8192 + 30, 8192 + 56, 12288 + 5] {
+                    let real = check_truncated(&mut cx, rec, &s, size, label);
+                    rec.line(format!("crashsz {k} - {size}"), real);
+                }
             }
             let budget = if near_root && per_point < 16 { per_point * 3 } else { per_point };
             for chi in gen_chis(rng, &s, budget) {
